@@ -435,7 +435,45 @@ def eval_builtin_name(ctx, case):
     return Verdict.held({"name": name, "accepted": True}, tags=["builtin-name-accepted"])
 
 
+def eval_recparent(ctx, case):
+    """template-data made in the config of a recursive package is part of the data of the mocks of its sub-packages, listed or discovered (the same
+    inheritance C04, C13 and C17 observe): it is validated with them - a violating value there fails the run, a required key supplied there satisfies."""
+    schema = {"type": "object", "properties": {"tool": {"type": "string"}, "level": {"type": "integer"}}, "required": ["tool"], "additionalProperties": False}
+    files = {"tmpl/t.templ": probe.probe_template("R"), "tmpl/t.templ.schema.json": json.dumps(schema)}
+    for d, nm in (("a", "Alpha"), ("a/b", "Beta"), ("a/c", "Gamma")):
+        files[d + "/s.go"] = "package %s\n\ntype %s interface{ M(x int) error }\n" % (d.rsplit("/", 1)[-1], nm)
+    ptd = {"tool": "x", "level": 3}
+    if case["variant"] == "wrong-type":
+        ptd["level"] = "three"
+    elif case["variant"] == "undeclared":
+        ptd["zz"] = 1
+    sub = {"interfaces": {"Beta": None}} if case["listed"] == "by-name" else {"config": {"all": True}}
+    cfg = {"template": "file://tmpl/t.templ", "formatter": "noop", "dir": "{{.InterfaceDir}}", "filename": "m_gen.go", "pkgname": "{{.SrcPackageName}}",
+           "packages": {MOD + "/a": {"config": {"recursive": True, "all": True, "template-data": ptd}}, MOD + "/a/b": sub}}
+    files[".mockery.yml"] = json.dumps(cfg)
+    root = core.scratch_module(ctx, files)
+    r = core.run_mockery(ctx, root, [], timeout=300, block_window=20)
+    if r.timed_out:
+        return Verdict.inconclusive("watchdog")
+    written = [d for d in ("a", "a/b", "a/c") if os.path.exists(os.path.join(root, d, "m_gen.go"))]
+    obs = dict(r.brief(), variant=case["variant"], listed=case["listed"], written=written)
+    tags = ["recparent", case["variant"], case["listed"]]
+    if r.panicked:
+        return Verdict.violated("mockery crashed", obs, tags)
+    if case["variant"] == "conforming":
+        if r.exit != 0 or len(written) != 3:
+            return Verdict.violated("the required key is supplied by the recursive package's template-data, which reaches every sub-package: the run must succeed, "
+                                    "but exit %s, files written for %s" % (r.exit, written), obs, tags)
+        return Verdict.held(obs, tags=tags)
+    if r.exit == 0 or "a/b" in written:
+        return Verdict.violated("template-data of the recursive package violates the schema (%s) and reaches the listed sub-package a/b, but exit %s and files written for %s"
+                                % (case["variant"], r.exit, written), obs, tags)
+    return Verdict.held(obs, tags=tags)
+
+
 def eval_case(ctx, case):
+    if case["kind"] == "recparent":
+        return eval_recparent(ctx, case)
     if case["kind"] == "builtin-name":
         return eval_builtin_name(ctx, case)
     if case["kind"] == "require":
@@ -485,6 +523,8 @@ def body(ctx, replay=None):
                         j += 1
             # every bare word the tool might accept as the name of a built-in template
             cases += [{"kind": "builtin-name", "i": 32000 + j, "name": nm} for j, nm in enumerate(CANDIDATE_BUILTIN_NAMES)]
+            cases += [{"kind": "recparent", "i": 33000 + j, "variant": v, "listed": l} for j, (v, l) in enumerate(
+                (a, b) for a in ("conforming", "wrong-type", "undeclared") for b in ("by-name", "all"))]
         ctx.run_cases(cases, eval_case)
     finally:
         ctx.server.close()
